@@ -17,7 +17,9 @@ package kvs
 //@ spec (*KVS).MultiPut(kvs, pairs)
 //@   props C18 C11
 //@   requires kvsInv(kvs)
-//@   requires [M0-keys] forall i uint64 :: i < len(pairs) ==> keyOK(kvs, pairs[i].Key) @C18 @C11
+// a key outside [513, sz) is refused by a panic before anything is committed: the blocks below 513 are
+// the journal's own (a put there would overwrite log slots), the ones from sz on are not the store's
+//@   panics_if [M0-keys] !(forall i uint64 :: i < len(pairs) ==> keyOK(kvs, pairs[i].Key)) @C18 @C11
 //@   requires [M0-vals] forall i uint64 :: i < len(pairs) ==> len(pairs[i].Val) == 4096 @C18 @C11
 //@   allocates jrnl.Op
 //@   modifies jblk, jcommits, lastst, jtouched
@@ -25,6 +27,7 @@ package kvs
 //@   ensures [M1-frame] forall k uint64, b uint64 :: (forall i uint64 :: i < len(pairs) ==> pairs[i].Key != k) ==> jblk[k][b] == old(jblk)[k][b] @C18
 //@   ensures [M2-durable] jcommits == old(jcommits) + 1 && (result <==> lastst == 1) && (!result ==> lastst == 4) @C18
 //@   loop 0 invariant uint64(rangeindex+1) <= len(pairs) && jcommits == old(jcommits) && lastst == old(lastst)
+//@   loop 0 invariant [keys-checked] forall i uint64 :: i < uint64(rangeindex+1) ==> keyOK(kvs, pairs[i].Key)
 //@   loop 0 invariant [done] forall i uint64, b uint64 :: i < uint64(rangeindex+1) && (forall j uint64 :: i < j && j < uint64(rangeindex+1) ==> pairs[j].Key != pairs[i].Key) && b < 4096 ==> jblk[pairs[i].Key][b] == pairs[i].Val[b]
 //@   loop 0 invariant [frame] forall k uint64, b uint64 :: (forall i uint64 :: i < uint64(rangeindex+1) ==> pairs[i].Key != k) ==> jblk[k][b] == old(jblk)[k][b]
 
@@ -33,7 +36,7 @@ package kvs
 //@ spec (*KVS).Get(kvs, key)
 //@   props C18 C11
 //@   requires kvsInv(kvs)
-//@   requires [M0-keys] keyOK(kvs, key) @C18 @C11
+//@   panics_if [M0-keys] !keyOK(kvs, key) @C18 @C11
 //@   allocates jrnl.Op, buf.Buf, []uint8, kvs.KVPair
 //@   modifies jcommits, lastst, jtouched
 //@   ensures [G1-value] result0 != nil && result0.Key == key && len(result0.Val) == 4096 && (forall b uint64 :: b < 4096 ==> result0.Val[b] == jblk[key][b]) @C18
